@@ -43,18 +43,24 @@ META = dict(
          "success; fresh or the very same source objects): each call is judged by the same per-call model and "
          "every earlier result object is re-compared with its snapshot after each later call. "
          "Holds on the executions produced.",
-    note="Success is a source returning the empty list (what Transport.auth_* returns on success). BaseException "
+    note="Success is a source returning normally: the empty list in the base strata, and in the return-value stratum "
+         "None, [], non-empty lists, strings, booleans, 0, (), {}, a Mock, a bare object (only an exception is a "
+         "failure). A same-class stratum makes every source the same real class failing with SSHException-family "
+         "errors to show that no exception class hides later sources. BaseException "
          "subclasses that are not Exception (KeyboardInterrupt) are not generated. get_sources is given as "
          "generator, list or iterator.",
     rule="case = one source list (kinds + outcomes + how get_sources yields) or one reuse history (2-4 scripted "
          "calls on one instance); distinct = that description; "
          "trivial (not counted) = nothing",
-    assumptions=["a source 'succeeds' when its authenticate() returns without raising"],
+    assumptions=["a source 'succeeds' when its authenticate() returns without raising, whatever it returns"],
 )
 
 
 def shards(tier):
     return 2 if tier == "quick" else 8
+
+SKIP = [0]  # shard s leaves out the samples of its first SKIP strata, so that evidence shows every stratum
+
 
 
 # generous per-shard caps: expiry means INCONCLUSIVE, never a verdict (the box is shared and can be 10x slow)
@@ -155,14 +161,29 @@ class Stub(AuthSource):
         return self.outcome
 
 
-def build_case(rng, pattern, kinds=None):
+def return_values():
+    """Things a source's authenticate() may return normally - every one of them is a success."""
+    from unittest.mock import Mock
+
+    return [("None", None, "falsy non-list value"), ("[]", [], "empty list"), ("['publickey']", ["publickey"], "non-empty list"),
+            ("['password', 'keyboard-interactive']", ["password", "keyboard-interactive"], "non-empty list"),
+            ("''", "", "falsy non-list value"), ("'publickey'", "publickey", "other truthy value"),
+            ("True", True, "other truthy value"), ("False", False, "falsy non-list value"), ("0", 0, "falsy non-list value"),
+            ("Mock()", Mock(), "other truthy value"), ("object()", object(), "other truthy value"),
+            ("()", (), "falsy non-list value"), ("{}", {}, "falsy non-list value")]
+
+
+def build_case(rng, pattern, kinds=None, classes=None, any_value=False):
     """pattern: tuple of booleans (True = succeeds). -> descriptor, sources, outcomes, transport, log"""
     log = Log()
     transport = FakeTransport(log)
     sources, outcomes, desc = [], [], []
     for i, ok in enumerate(pattern):
-        cls = rng.choice(["stub", "stub", "stub", "none", "password", "inmemory", "ondisk"])
-        if ok:
+        cls = classes[i] if classes else rng.choice(["stub", "stub", "stub", "none", "password", "inmemory", "ondisk"])
+        if ok and any_value:
+            oname, outcome, _ = rng.choice(return_values())
+            oname = "returns " + oname
+        elif ok:
             outcome, oname = [], "ok"
         else:
             oname = kinds[i] if kinds else rng.choice(EXC_KINDS)
@@ -560,7 +581,57 @@ def sequence_case(ctx, rng, si):
             return
 
 
+# ---- any normal return is a success; exception classes never hide later sources ----------------------------
+SSH_FAMILY = ["AuthenticationException", "BadAuthenticationType", "PartialAuthentication", "PasswordRequiredException",
+              "SSHException", "NestedAuthFailure"]
+
+
+def value_class(v):
+    if isinstance(v, list):
+        return "non-empty list" if v else "empty list"
+    return "other truthy value" if v else "falsy non-list value"
+
+
+def value_case(ctx, rng, vi):
+    n = rng.randint(1, 7)
+    p_ok = rng.choice([0.2, 0.4, 1.0])
+    pattern = tuple(rng.random() < p_ok for _ in range(n))
+    if not any(pattern):
+        pattern = pattern[:-1] + (True,)
+    how = rng.choice(["generator", "list", "iterator"])
+    desc, sources, outcomes, transport, log = build_case(rng, pattern, any_value=True)
+    winner = next(o for o in outcomes if not isinstance(o, BaseException))
+    vc = value_class(winner)
+    ctx.case(("value", pattern, how, tuple(desc)),
+             sample=dict(kind="source returning an arbitrary value", sources=desc, get_sources=how) if vi < 1 and SKIP[0] <= 1 else None)
+    ctx.count("winning_sources_returning_" + vc.replace(" ", "_").replace("-", "_"))
+    ctx.count("arbitrary_return_value_cases")
+    judge(ctx, desc, how, sources, outcomes, transport, log, tag="winning source returns a %s: " % vc)
+
+
+def class_case(ctx, rng, ci):
+    """Every source of the same class; earlier ones fail with SSHException-family errors (often the same one)."""
+    n = rng.randint(2, 8)
+    cls = rng.choice(["password", "inmemory", "ondisk", "none", "stub"])
+    same_error = rng.random() < 0.5
+    first = rng.choice(SSH_FAMILY)
+    kinds = [first if same_error else rng.choice(SSH_FAMILY) for _ in range(n)]
+    last_ok = rng.random() < 0.5
+    pattern = tuple([False] * (n - 1) + [last_ok])
+    how = rng.choice(["generator", "list", "iterator"])
+    desc, sources, outcomes, transport, log = build_case(rng, pattern, kinds=kinds, classes=[cls] * n)
+    ctx.case(("class", cls, tuple(kinds), last_ok, how),
+             sample=dict(kind="same-class sources failing with SSH exception classes", sources=desc, get_sources=how) if ci < 1 and SKIP[0] <= 2 else None)
+    ctx.count("same_class_sequences_judged")
+    ctx.count("attempts_expected_after_an_ssh_family_failure", n - 1)
+    if "BadAuthenticationType" in kinds[:-1]:
+        ctx.count("sequences_with_a_BadAuthenticationType_before_later_sources")
+    judge(ctx, desc, how, sources, outcomes, transport, log,
+          tag="sources of one class failing with SSH exception classes: ")
+
+
 def run(ctx):
+    SKIP[0] = (ctx.shard * 3) % 5
     rng = ctx.rng
     idx = 0
     # every success/failure pattern for 0..8 sources
@@ -573,7 +644,7 @@ def run(ctx):
                 desc, sources, outcomes, transport, log = build_case(rng, pattern)
                 ctx.case(("enum", pattern, how, tuple(desc)),
                          sample=dict(kind="enumerated pattern", succeeds=list(pattern), sources=desc, get_sources=how)
-                         if idx in (7, 300) and how == "generator" else None)
+                         if idx in (7, 300) and how == "generator" and SKIP[0] <= 0 else None)
                 ctx.count("enumerated_pattern_cases")
                 judge(ctx, desc, how, sources, outcomes, transport, log)
     for i in range(ctx.pick(6000, 40000)):
@@ -585,10 +656,21 @@ def run(ctx):
         ctx.case(("rand", pattern, how, tuple(desc)),
                  sample=None)
         judge(ctx, desc, how, sources, outcomes, transport, log)
+    for vi in range(ctx.pick(3000, 20000)):
+        value_case(ctx, rng, vi)
+    for ci in range(ctx.pick(3000, 20000)):
+        class_case(ctx, rng, ci)
     for hi in range(ctx.pick(3000, 20000)):
         history_case(ctx, rng, hi)
     for si in range(ctx.pick(5000, 30000)):
         sequence_case(ctx, rng, si)
+    ctx.require("arbitrary_return_value_cases", 4000)
+    ctx.require("winning_sources_returning_falsy_non_list_value", 1200)
+    ctx.require("winning_sources_returning_non_empty_list", 400)
+    ctx.require("winning_sources_returning_other_truthy_value", 800)
+    ctx.require("same_class_sequences_judged", 4000)
+    ctx.require("attempts_expected_after_an_ssh_family_failure", 12000)
+    ctx.require("sequences_with_a_BadAuthenticationType_before_later_sources", 1000)
     ctx.require("sequence_cases_judged", 5000)
     ctx.require("produce_try_interleavings_checked", 5000)
     ctx.require("sequences_with_repeated_or_equal_sources", 1500)
